@@ -13,42 +13,80 @@ from harness.common import Ck, coq_list, parse_coq_N_list
 from translate import c05_sites
 
 MANIFEST = dict(
-    technique='Rocq proof (Flocq binary64 model of Python float % 360.0: range + identity-on-range theorems over all finite doubles; exact dyadic '
-              'model of format_float: shape/value/error theorems and the exact "-0" carve-out; model of parse_vec_str with the round-trip theorem '
-              'parse(format) within 5e-7 for every bracket/whitespace wrapping; frame + heap/alias theorems for frozen values and copies) + '
-              'fail-closed ast census of math.py (store sites, angle creations, format/parse pipelines, mutation events, result kinds of every '
-              'public method) + vm_compute correspondences (bit-exact / string-exact / parse results / frames / result aliasing) + history search',
+    technique='Rocq proof (Flocq binary64 model of Python float % 360.0: range, identity-on-range and exact-subtraction-on-[360,720) theorems '
+              'over all finite doubles; exact dyadic model of format_float: shape/value/error theorems and the exact "-0" carve-out; model of '
+              'parse_vec_str with the round-trip theorem parse(format) within 5e-7 for every bracket/whitespace wrapping; the composed chain '
+              'str -> parse_vec_str -> float() -> % 360 % 360 for whole angles and vectors; frame + heap/alias theorems for frozen values and '
+              'copies; slot-transfer model for the VALUE of a copy) + fail-closed, semantically normalising ast census of math.py (store '
+              'sites, angle creations, format/parse pipelines by return-path enumeration, mutation events, result kinds of every public '
+              'method, symbolic run of every copy-like method; the sets of names the census relies on - methods that build a new object, methods that '
+              'write their receiver or argument - are least fixpoints computed from the source, private helpers are recognised by form) + vm_compute correspondences (bit-exact / string-exact / parse results / '
+              'frames / result aliasing / copied slots bit for bit) + history search',
     text='Theorems in Props/C05.v. (a) For EVERY finite binary64 x the executable Flocq model of x % 360.0 % 360.0 is finite and in [0,360) (a '
-         'single % reaches exactly 360.0, witness -1e-14) and is the identity on [0,360); hence, if every store to _pitch/_yaw/_roll is a double '
-         'modulo, a copy of an angle slot or 0.0, all angle slots stay in [0,360) after every history of stores with finite operands. The census '
-         'also lists every expression that creates an Angle (constructor / __new__ handed to _to_angle / __new__ with all three slots stored on '
-         'every path), none unclassified. (b) Frame theorem: with a mutation census in which no method reachable with a frozen receiver writes '
-         'its receiver, an argument or a copy() of either, frozen objects never change and non-receivers are never written. Copy theorem on a '
-         'heap with aliasing: for a result-kind table in which copy/__copy__/__deepcopy__/__reduce__/freeze/thaw return a NEW object or (frozen '
-         'classes only) the receiver, and a census in which they write nothing, operating on the copy never changes the source and vice versa, '
-         'for every later history. (c) format_float on every dyadic: text is -?digits(.1-6 digits), no trailing zero, no exponent; "-0" is '
-         'printed IF AND ONLY IF the input is in the carved-out class (no repair in the source, negative, non-zero, |x|*1e6 <= 1/2); value = '
-         'round-half-even(|x|*1e6)/1e6, within 5e-7 of x. parse_vec_str as read from the source (strip, bracket sets, split, float) applied to '
-         'three formatted numbers in any documented bracket style with any whitespace returns three decimals each within 5e-7 of its component '
-         '(exact integer statement, carved-out "-0" included); with float() modelled as correctly rounded the double read back is within 5e-7 + '
-         'ulp/2. All generated premises are kernel-checked instance obligations on every run.',
+         'single % reaches exactly 360.0, witness -1e-14), is the identity on [0,360) and subtracts exactly 360 on [360,720); hence, if every '
+         'store to _pitch/_yaw/_roll is a double modulo, a copy of an angle slot or 0.0, all angle slots stay in [0,360) after every history '
+         'of stores with finite operands. The census also lists every expression that creates an Angle (constructor / __new__ handed to '
+         '_to_angle / __new__ with all three slots stored on every path), none unclassified. (b) Frame theorem: with a mutation census in '
+         'which no method reachable with a frozen receiver writes its receiver, an argument or a copy() of either, frozen objects never '
+         'change and non-receivers are never written. Copy theorem on a heap with aliasing: for a result-kind table in which '
+         'copy/__copy__/__deepcopy__/__reduce__/freeze/thaw return a NEW object or (frozen classes only) the receiver, and a census in which '
+         'they write nothing, operating on the copy never changes the source and vice versa, for every later history. Value of a copy: for '
+         'the slot-transfer table obtained by running each copy-like method symbolically, the result has the promised class, every slot of '
+         'a new vector/matrix is exactly the source slot, and every slot of a new angle built from a source in range has the same real '
+         'value and is in range (the constructor normalisation is the identity there). (c) format_float on every dyadic: text is '
+         '-?digits(.1-6 digits), no trailing zero, no exponent; "-0" is printed IF AND ONLY IF the input is in the carved-out class (no '
+         'repair in the source, negative, non-zero, |x|*1e6 <= 1/2); value = round-half-even(|x|*1e6)/1e6, within 5e-7 of x. parse_vec_str '
+         'as read from the source (strip, bracket sets, split, float) applied to three formatted numbers in any documented bracket style '
+         'with any whitespace returns three decimals each within 5e-7 of its component (exact integer statement, carved-out "-0" '
+         'included); with float() modelled as correctly rounded the double read back is within 5e-7 + ulp/2. (a)+(c) composed: '
+         'from_str(str(angle)) for an angle whose slots are in range stores slots that are again in [0,360) and within 5e-7 + ulp/2 of the '
+         'printed ones modulo 360 (359.9999997 -> "360" -> 360.0 -> 0.0 is the wrap-around branch); from_str(str(vec)) is within 5e-7 + '
+         'ulp/2 per component. All generated premises are kernel-checked instance obligations on every run.',
     note='Trusted: Coq kernel + vm_compute, Flocq, translate/c05_sites.py, the hand models Num/Mod360.v, Num/Dec6.v, Num/VecText.v (tied by '
-         'bit-exact / string-exact / parse-result differential runs; str.isspace() table compared on all 1114112 code points). Axioms: the four '
-         'classical real-number axioms of Coq Reals (through Flocq) for the % 360 theorems and the float() corollary only; frame, copy, format '
-         'and parse theorems are axiom-free. Assumptions: operands of the modulo are finite; printf("%.6f") and float() are correctly rounded '
-         '(float() enters as the definition py_float = round-to-nearest-even); only plain-decimal fields are predicted by the parse model (other '
-         'spellings accepted by float() - exponents, inf, underscores - get no prediction); only the public API is used. Not modelled: float '
-         'VALUES of rotations (sin/cos/atan2), equality of a copy with its source (searched), __format__ with a user spec, the Cython twin. '
-         'Known finding kept: format_float prints "-0" on the carved-out class (suite pins it); a "-0" outside that class has its own key.',
+         'bit-exact / string-exact / parse-result differential runs; str.isspace() table compared on all 1114112 code points), '
+         'SM/FrozenCopyValue.v (tied bit for bit on executed copies). Axioms: the four classical real-number axioms of Coq Reals (through '
+         'Flocq) for the % 360 theorems, the float() corollaries and the composed round-trip theorems only; frame, copy, format and parse '
+         'theorems are axiom-free. Assumptions: operands of the modulo are finite; printf("%.6f") and float() are correctly rounded '
+         '(float() enters as the definition py_float = round-to-nearest-even; the composed theorems quantify over the finite double whose '
+         'value is py_float of the decoded field); only plain-decimal fields are predicted by the parse model (other spellings accepted by '
+         'float() - exponents, inf, underscores - get no prediction); only the public API is used. Not modelled: float VALUES of rotations '
+         '(sin/cos/atan2; only finiteness assumed), __format__ with a user spec, hash/eq consistency, the Cython twin. Known finding kept: '
+         'format_float prints "-0" on the carved-out class (suite pins it); a "-0" outside that class has its own key.',
 )
 
 IMPORTS = ['Coq.ZArith.ZArith', 'Coq.NArith.NArith', 'Coq.Lists.List', 'Coq.Strings.String', 'SV.Num.Mod360', 'SV.Num.AngleSites',
-           'SV.Num.Dec6', 'SV.Num.Dec6CarveProofs', 'SV.Num.VecText', 'SV.SM.FrozenOps', 'SV.SM.FrozenCopy', 'SV.Gen.AngleSites_gen']
+           'SV.Num.Dec6', 'SV.Num.Dec6CarveProofs', 'SV.Num.VecText', 'SV.SM.FrozenOps', 'SV.SM.FrozenCopy', 'SV.SM.FrozenCopyValue',
+           'SV.Gen.AngleSites_gen']
 PRE = '''Import ListNotations.
 Fixpoint bad_idx {A} (f : A -> bool) (n : N) (l : list A) : list N := match l with [] => [] | x :: r => (if f x then [] else [n]) ++ bad_idx f (n + 1)%N r end.
 Definition t3_eqb (a b : Z * Z * Z) : bool := let '(a1, a2, a3) := a in let '(b1, b2, b3) := b in (Z.eqb a1 b1 && Z.eqb a2 b2 && Z.eqb a3 b3)%bool.
 Fixpoint nl_eqb (a b : list N) : bool := match a, b with [], [] => true | x :: a', y :: b' => (N.eqb x y && nl_eqb a' b')%bool | _, _ => false end.
 '''
+
+
+class Pending:
+    """A correspondence written as a generator: it prepares its cases, yields (jobs, name, preamble) - independent
+    coq_eval jobs, evaluated here in a thread pool while the caller goes on - and receives the list of their results
+    when finish() is called.  Results are recorded in the order finish() is called, so the run stays deterministic."""
+
+    def __init__(self, ck: Ck, gen, pool):
+        self.gen = gen
+        self.futs = []
+        try:
+            jobs, name, preamble = next(gen)
+        except StopIteration:
+            self.gen = None
+            return
+        self.futs = [pool.submit(ck.coq_eval, IMPORTS, j, f'{name}{i}', 600, preamble) for i, j in enumerate(jobs)]
+
+    def finish(self) -> None:
+        if self.gen is None:
+            return
+        try:
+            self.gen.send([f.result() for f in self.futs])
+        except StopIteration:
+            pass
+        self.gen = None
 
 
 # ------------------------------------------------------------------------------------------------ doubles
@@ -118,12 +156,13 @@ def corr_mod(ck: Ck) -> None:
     ck.sample({'x': cases[5][0].hex(), 'x % 360.0 (s,m,e)': cases[5][2], 'x % 360.0 % 360.0 (s,m,e)': cases[5][3]})
     bad: list[int] = []
     t = lambda p: f'({p[0]}, {p[1]}, ({p[2]}))'
+    jobs = []
     for lo in range(0, len(cases), 500):
         part = cases[lo:lo + 500]
         lit = coq_list(f'(({"true" if s else "false"}, {m}, ({e})), {t(one)}, {t(two)})' for _, (s, m, e), one, two in part)
-        expr = ('bad_idx (fun c : (bool * Z * Z) * (Z * Z * Z) * (Z * Z * Z) => let \'(i, one, two) := c in let \'(s, m, e) := i in '
-                f'(t3_eqb (show (pymod360 (mk s m e))) one && t3_eqb (show (double360 (mk s m e))) two)%bool) 0%N ({lit})%Z')
-        vals = ck.coq_eval(IMPORTS, [expr], name='mod360', preamble=PRE)
+        jobs.append(['bad_idx (fun c : (bool * Z * Z) * (Z * Z * Z) * (Z * Z * Z) => let \'(i, one, two) := c in let \'(s, m, e) := i in '
+                     f'(t3_eqb (show (pymod360 (mk s m e))) one && t3_eqb (show (double360 (mk s m e))) two)%bool) 0%N ({lit})%Z'])
+    for lo, vals in zip(range(0, len(cases), 500), (yield (jobs, 'mod360', PRE))):
         if vals is None:
             ck.obligation('correspondence:pymod360', False, 'model could not be evaluated')
             ck.tie_broken.append('correspondence pymod360: model evaluation failed')
@@ -138,6 +177,7 @@ def corr_mod(ck: Ck) -> None:
 
 # ------------------------------------------------------------------------------------------------ format_float
 FMT_SPECIAL = [-1e-9, -0.0, 0.0, -4.9e-7, -5e-7, -5.000001e-7, 5e-7, 0.5, 1.5e-6, 2.5e-6, 0.0078125, 0.0234375, 359.9999995, 359.99999949,
+               359.9999997, 359.99999999999994, 719.9999999,
                1e16, 123456789012345680.0, 1e22, -1e22, 0.1, 0.3, 1 / 3, 2 / 3, 100.0, -100.0, 1e-7, -1e-7, 0.000001, 0.0000015,
                1.0000005, -1.0000005, 1.9999995, 9.9999995, 0.9999995, 99999.9999995, 5e-324, -5e-324, 1e300, 128.0, 1e-300]
 
@@ -177,12 +217,13 @@ def corr_format(ck: Ck) -> None:
             ck.seen(('fmt', x.hex()))
     ck.sample({'x': cases[40][0].hex(), 'format_float(x)': cases[40][2]})
     bad: list[int] = []
+    jobs = []
     for lo in range(0, len(cases), 500):
         part = cases[lo:lo + 500]
         lit = coq_list(f'(({"true" if s else "false"}, {m}%N, ({e})%Z), [{";".join(str(ord(c)) for c in txt)}]%N)' for _, (s, m, e), txt in part)
-        expr = ('bad_idx (fun c : (bool * N * Z) * list N => let \'(s, m, e) := fst c in '
-                f'nl_eqb (format6 format_float_cfg {{| dneg := s; dm := m; de := e |}}) (snd c)) 0%N {lit}')
-        vals = ck.coq_eval(IMPORTS, [expr], name='format6', preamble=PRE)
+        jobs.append(['bad_idx (fun c : (bool * N * Z) * list N => let \'(s, m, e) := fst c in '
+                     f'nl_eqb (format6 format_float_cfg {{| dneg := s; dm := m; de := e |}}) (snd c)) 0%N {lit}'])
+    for lo, vals in zip(range(0, len(cases), 500), (yield (jobs, 'format6', PRE))):
         if vals is None:
             ck.obligation('correspondence:format6', False, 'model could not be evaluated')
             ck.tie_broken.append('correspondence format6: model evaluation failed')
@@ -260,13 +301,15 @@ def corr_parse(ck: Ck) -> None:
                  'Definition enc_parsed (p : parsed) : list N := match p with PDefaults => [0%N] | PFields a b c => (1%N :: enc_dec a ++ enc_dec b ++ enc_dec c) end.\n')
     model: list[list[int]] = []
     spaces: list[int] | None = None
+    jobs = []
     for lo in range(0, len(cases), 500):
         part = cases[lo:lo + 500]
         lit = coq_list('[' + ';'.join(str(ord(c)) for c in t) + ']%N' for _, t in part)
         exprs = [f'map (fun s => enc_parsed (parse_vec parse_vec_cfg s)) ({lit} : list (list N))']
         if lo == 0:
             exprs.append('rev (snd (N.iter 70000 (fun p : N * list N => (fst p + 1, if py_space (fst p) then fst p :: snd p else snd p))%N (0%N, [])))')
-        vals = ck.coq_eval(IMPORTS, exprs, name='parsevec', preamble=pre)
+        jobs.append(exprs)
+    for lo, vals in zip(range(0, len(cases), 500), (yield (jobs, 'parsevec', pre))):
         if vals is None:
             ck.obligation('correspondence:parse_vec_str', False, 'model could not be evaluated')
             ck.tie_broken.append('correspondence parse_vec_str: model evaluation failed')
@@ -349,6 +392,28 @@ def circ(a: float, b: float) -> float:
     return min(d, 360.0 - d)
 
 
+def flocq_ulp(fr) -> 'Fraction':
+    """ulp radix2 (FLT_exp (-1074) 53) of an exact rational, as in Props/C05.v c05_angle_component_roundtrip."""
+    from fractions import Fraction
+    if fr == 0:
+        return Fraction(1, 2 ** 1074)
+    fr = abs(fr)
+    e = fr.numerator.bit_length() - fr.denominator.bit_length()
+    if Fraction(2) ** e > fr:
+        e -= 1                       # now 2^e <= fr < 2^(e+1)
+    return Fraction(2) ** max(e - 52, -1074)
+
+
+def roundtrip_within_theorem(field: str, before: float, after: float) -> bool:
+    """Conclusion of c05_angle_component_roundtrip evaluated exactly: the slot read back is in [0, 360) and within
+    5e-7 + ulp(decimal)/2 of the printed slot, directly or after the wrap-around 360 -> 0."""
+    from fractions import Fraction
+    dec = Fraction(field)
+    bound = Fraction(5, 10 ** 7) + flocq_ulp(dec) / 2
+    p, q = Fraction(before), Fraction(after)
+    return 0.0 <= after < 360.0 and (abs(q - p) <= bound or abs(q + 360 - p) <= bound)
+
+
 def search_text(ck: Ck) -> None:
     from srctools.math import Angle, FrozenAngle, FrozenVec, Vec, format_float, parse_vec_str
     n = ck.budget(6000, 30000)
@@ -380,11 +445,18 @@ def search_text(ck: Ck) -> None:
                     'vec-str-negative-zero' if 'negative-zero' in probs else 'vec-str-not-plain'
                 found.setdefault(key, (x, f'str({v!r}) == {txt!r}', {'call': 'str', 'cls': cls.__name__, 'xyz': [x.hex(), y.hex(), z.hex()]}))
                 continue
-            for wrap in ('{}', '({})', '[{}]', ' <{}> ', '{{{}}}'):
-                back = cls.from_str(wrap.format(txt), 9e9, 9e9, 9e9)
+            # join() and repr() print the same three numbers
+            for what, t2 in (('join', v.join(';').split(';')), ('repr', repr(v)[len(cls.__name__) + 1:-1].split(', '))):
+                if t2 != parts and ('vec-str-' + what + '-differs-from-str') not in found:
+                    found['vec-str-' + what + '-differs-from-str'] = (x, f'{what} of {cls.__name__}({x!r}, {y!r}, {z!r}) prints {t2!r}, str() prints {parts!r}',
+                                                                      {'call': what, 'cls': cls.__name__, 'xyz': [x.hex(), y.hex(), z.hex()]})
+            # every bracket style, and (c05_parse_format_vec: ANY non-empty whitespace between the numbers) other separators
+            for wrap, sep in (('{}', ' '), ('({})', ' '), ('[{}]', ' '), (' <{}> ', ' '), ('{{{}}}', ' '), ('{}', '  '), ('({})', '\t'), ('[ {} ]', ' \n')):
+                text = wrap.format(txt.replace(' ', sep))
+                back = cls.from_str(text, 9e9, 9e9, 9e9)
                 if any(abs(a - b) > 5e-7 + math.ulp(b) / 2 for a, b in zip(back, v)):
-                    found.setdefault('vec-from-str-error', (x, f'{cls.__name__}.from_str({wrap.format(txt)!r}) = {back!r} for {v!r}',
-                                                            {'call': 'from_str', 'cls': cls.__name__, 'xyz': [x.hex(), y.hex(), z.hex()], 'wrap': wrap}))
+                    found.setdefault('vec-from-str-error', (x, f'{cls.__name__}.from_str({text!r}) = {back!r} for {v!r}',
+                                                            {'call': 'from_str', 'cls': cls.__name__, 'xyz': [x.hex(), y.hex(), z.hex()], 'wrap': wrap, 'sep': sep}))
             if parse_vec_str(v) != (v.x, v.y, v.z):
                 found.setdefault('parse-vec-str-passthrough', (x, 'parse_vec_str(vec) != components', {'xyz': [x.hex(), y.hex(), z.hex()]}))
         if abs(x) < 1e15:
@@ -398,7 +470,14 @@ def search_text(ck: Ck) -> None:
                     found.setdefault(key, (x, f'str({a!r}) == {txt!r}', {'call': 'str', 'cls': cls.__name__, 'xyz': [x.hex(), y.hex(), z.hex()]}))
                     continue
                 back = cls.from_str(txt, 77, 77, 77)
-                if any(circ(p, q) > 5e-7 + 1e-13 for p, q in zip(back, a)) or not all(0 <= p < 360 for p in back):
+                for what, t2 in (('join', a.join(';').split(';')), ('repr', repr(a)[len(cls.__name__) + 1:-1].split(', '))):
+                    if t2 != parts and ('angle-str-' + what + '-differs-from-str') not in found:
+                        found['angle-str-' + what + '-differs-from-str'] = (x, f'{what} of {a!r} prints {t2!r}, str() prints {parts!r}',
+                                                                            {'call': what, 'cls': cls.__name__, 'xyz': [x.hex(), y.hex(), z.hex()]})
+                ck.count('angle_roundtrip_cases')
+                for p, q in zip(a, back):       # which branch of the theorem: read back directly, or 360.0 stored as 0.0
+                    ck.hist('angle_roundtrip_branch', 'wrap-around 360 -> 0' if p - q > 180 else 'direct')
+                if not all(roundtrip_within_theorem(t, p, q) for t, p, q in zip(parts, a, back)):
                     found.setdefault('angle-from-str-error', (x, f'{cls.__name__}.from_str({txt!r}) = {back!r} for {tuple(a)!r}',
                                                               {'call': 'from_str', 'cls': cls.__name__, 'xyz': [x.hex(), y.hex(), z.hex()]}))
     ck.sample({'str(Vec(-1e-9, 0.1, 725.5))': str(Vec(-1e-9, 0.1, 725.5)), 'str(Angle(-1e-14, 725.5, 359.9999997))': str(Angle(-1e-14, 725.5, 359.9999997))})
@@ -652,6 +731,7 @@ def apply_op(op: tuple, regs: list):
 
 
 COPY_OPS = {'copy', 'copy_copy', 'deepcopy', 'pickle', 'freeze', 'thaw', 'ctor_same', 'ctor_frozen'}
+SHAPE_OPS = {'copy', 'copy_copy', 'deepcopy', 'pickle', 'freeze', 'thaw'}       # the methods of Gen copy_shapes
 
 
 def finite_obj(o) -> bool:
@@ -662,13 +742,21 @@ def missing_slots(o) -> list[str]:
     return [s for s in slots_of(o) if not hasattr(o, s)]
 
 
-def run_history(hist: list[tuple]):
-    """Execute a history on real objects. Returns (problems, frames, regs): problems are property violations
-    (key, text, step); frames record for every executed op (classes, census method, receiver, args, changed registers)."""
-    regs: list = []
-    problems: list[tuple[str, str, int]] = []
-    frames: list[dict] = []
-    for step, op in enumerate(hist):
+class HistRunner:
+    """Executes a history on real objects one operation at a time.  problems are property violations (key, text, step);
+    frames record for every executed op (classes, census method, receiver, args, changed registers)."""
+
+    def __init__(self) -> None:
+        self.regs: list = []
+        self.problems: list[tuple[str, str, int]] = []
+        self.frames: list[dict] = []
+        self.n = 0
+
+    def step(self, op: tuple) -> None:
+        regs, problems, frames, step = self.regs, self.problems, self.frames, self.n
+        self.n += 1
+        if problems:
+            return
         before = [snap(o) for o in regs]
         try:
             with warnings.catch_warnings():
@@ -677,7 +765,7 @@ def run_history(hist: list[tuple]):
         except (TypeError, AttributeError, ValueError, ZeroDivisionError, KeyError, NotImplementedError, OverflowError, ArithmeticError):
             res = ('<raised>', op[1], [], [])
         if res is None:
-            continue
+            return
         meth, recv, args, out = res
         after = [snap(o) for o in regs]
         changed = [i for i, (p, q) in enumerate(zip(before, after)) if p != q]
@@ -698,6 +786,9 @@ def run_history(hist: list[tuple]):
                 res_is = 'same' if out[0] is regs[src_i] else 'new'
         frames.append({'op': op[0], 'meth': meth, 'recv': recv, 'args': args, 'changed': changed, 'classes': [type(o).__name__ for o in regs[:nregs]],
                        'res_is': res_is, 'res_cls': type(out[0]).__name__ if out else None})
+        if op[0] in SHAPE_OPS and recv is not None and recv < nregs and out and not missing_slots(out[0]) and finite_obj(out[0]):
+            frames[-1]['src_raw'] = {s: getattr(regs[recv], s) for s in slots_of(regs[recv])}
+            frames[-1]['dst_raw'] = {s: getattr(out[0], s) for s in slots_of(out[0])}
         # (b) frozen values never change; nothing but a mutable receiver is written
         for i in changed:
             cls = before[i][0]
@@ -727,9 +818,16 @@ def run_history(hist: list[tuple]):
                 # observation through the public properties must agree with the slots
                 if (o.pitch, o.yaw, o.roll) != (o._pitch, o._yaw, o._roll):
                     problems.append(('angle-property-differs-from-slot', repr(o), step))
-        if problems:
+
+
+def run_history(hist: list[tuple]):
+    """Execute a history on real objects. Returns (problems, frames, regs)."""
+    r = HistRunner()
+    for op in hist:
+        r.step(op)
+        if r.problems:
             break
-    return problems, frames, regs
+    return r.problems, r.frames, r.regs
 
 
 TO_ANGLE_OPS = {'mat_to_angle', 'ang_from_basis', 'matmul', 'imatmul', 'transform', 'tuple_matmul', 'vec_to_angle'}
@@ -782,13 +880,14 @@ def search_histories(ck: Ck) -> list[dict]:
             hist = []
             regs_n = 0
             length = ck.rng.choice([4, 8, 14, 24])
-            sim: list = []
+            runner = HistRunner()
             for _ in range(length):
                 hist.append(gen_op(ck.rng, [None] * max(regs_n, 1)) if regs_n else gen_op(ck.rng, []))
-                problems, frames, regs = run_history(hist)
-                regs_n = len(regs)
-                if problems:
+                runner.step(hist[-1])
+                regs_n = len(runner.regs)
+                if runner.problems:
                     break
+            problems, frames, regs = runner.problems, runner.frames, runner.regs
         ck.count('histories')
         for f in frames:
             ck.hist('history_ops', f['op'])
@@ -819,13 +918,15 @@ def corr_frames(ck: Ck, frames: list[dict]) -> None:
         return
     s = lambda x: '"' + x + '"'
     bad: list[int] = []
+    jobs = []
     for lo in range(0, len(frames), 500):
         part = frames[lo:lo + 500]
         lit = coq_list('(%s, %s, %d, %s, %s)' % (coq_list(f'({s(c)}, 0)' for c in f['classes']), s(f['meth']), f['recv'],
                                                  coq_list(str(i) for i in f['args']), coq_list(str(i) for i in f['changed'])) for f in part)
-        expr = ('bad_idx (fun c : list (string * nat) * string * nat * list nat * list nat => let \'(st, m, r, ar, ch) := c in '
-                'forallb (may_write nat mut_events st {| meth := m; recv := r; args := ar |}) ch) 0%N (' + lit + ')%nat')
-        vals = ck.coq_eval(IMPORTS, [expr], name='frames', preamble=PRE + 'Open Scope string_scope.\n')
+        jobs.append(['bad_idx (fun c : list (string * nat) * string * nat * list nat * list nat => let \'(st, m, r, ar, ch) := c in '
+                     'forallb (may_write nat mut_events st {| meth := m; recv := r; args := ar |}) ch) 0%N (' + lit + ')%nat'])
+    for lo, vals in zip(range(0, len(frames), 500), (yield (jobs, 'frames', PRE + 'Open Scope string_scope.\n'))):
+        part = frames[lo:lo + 500]
         if vals is None:
             ck.obligation('correspondence:frames', False, 'model could not be evaluated')
             ck.tie_broken.append('correspondence frames: model evaluation failed')
@@ -871,6 +972,49 @@ def corr_results(ck: Ck, frames: list[dict], side: dict) -> None:
         ck.extra['result_disagreement'] = bad[:5]
 
 
+def corr_shapes(ck: Ck, frames: list[dict], side: dict) -> None:
+    """The slot transfer the translator computed for each copy-like method (Gen copy_shapes, SM/FrozenCopyValue.v
+    `built`) against the objects the implementation returned: class of the result, and every slot bit for bit - the
+    source slot itself for TId/TFloat, `v % 360.0 % 360.0` for TNorm360 (that operator is tied to Num/Mod360.v by
+    correspondence:pymod360)."""
+    table = {(c, m): (rc, t) for c, m, rc, t in side.get('copy_shapes', [])}
+    bad = []
+    n = 0
+    for f in frames:
+        if 'src_raw' not in f:
+            continue
+        cls = f['classes'][f['recv']]
+        ent = table.get((cls, f['meth']))
+        n += 1
+        ck.count('shape_cases')
+        ck.hist('copy_shape_checked', f'{cls}.{f["meth"]}')
+        if ent is None:
+            bad.append({'class': cls, 'method': f['meth'], 'model': 'no entry'})
+            continue
+        rc, term = ent
+        if f['res_cls'] != rc:
+            bad.append({'class': cls, 'method': f['meth'], 'model_result_class': rc, 'implementation': f['res_cls']})
+            continue
+        if term == 'CSelf':
+            if f['res_is'] != 'same':
+                bad.append({'class': cls, 'method': f['meth'], 'model': 'CSelf', 'implementation': f['res_is']})
+            continue
+        if term == 'CUnknown':
+            continue            # no prediction (the instance obligation fails)
+        exp = {}
+        for d, sl, x in re.findall(r'\("(\w+)", "(\w+)", (\w+)\)', term):
+            v = f['src_raw'][sl]
+            exp[d] = v % 360.0 % 360.0 if x == 'TNorm360' else v
+        got = f['dst_raw']
+        if set(exp) != set(got) or any(exp[k].hex() != got[k].hex() for k in exp):
+            bad.append({'class': cls, 'method': f['meth'], 'model': {k: v.hex() for k, v in exp.items()}, 'implementation': {k: v.hex() for k, v in got.items()}})
+    ck.obligation('correspondence:copy_shapes', n > 0 and not bad,
+                  f'{n} executed copy / __copy__ / __deepcopy__ / pickle / freeze / thaw calls: result class and every slot bit for bit vs Gen copy_shapes: {len(bad)} disagreements')
+    if bad or not n:
+        ck.tie_broken.append('correspondence copy_shapes (slot transfer vs real objects)')
+        ck.extra['copy_shape_disagreement'] = bad[:5]
+
+
 # ------------------------------------------------------------------------------------------------ direct oracles
 def search_to_angle(ck: Ck) -> None:
     """Targeted oracle for the conversion matrix -> angle: rotations by tiny negative angles about each axis,
@@ -903,6 +1047,9 @@ def search_to_angle(ck: Ck) -> None:
             else: a = Vec(1.0, math.sin(math.radians(v[0])), 0.0).to_angle(v[1])
         except (ValueError, ZeroDivisionError):
             continue
+        except AttributeError as e:         # an angle escaped from a conversion without all of its slots and was read
+            found.setdefault('angle-slot-missing-after-to_angle', (route, v, (repr(e),)))
+            continue
         ck.count('to_angle_cases')
         ck.hist('to_angle_route', route)
         if any(abs(x) < 1e-9 and x != 0 for x in v):
@@ -919,19 +1066,57 @@ def search_to_angle(ck: Ck) -> None:
         ck.violation(key, f'{route}{tuple(v)!r} gives (pitch, yaw, roll) = {vals!r}', {'route': route, 'values': [x.hex() for x in v]})
 
 
-def theorems_with_axioms(ck: Ck, props_file: str = 'Props/C05.v') -> None:
-    """Same job as Ck.theorems() - one `theorem:<name>` obligation per statement of the Props file with its Print
-    Assumptions result - with a parser that also understands axioms whose type is printed on the following line (the
-    Reals axioms are).  Done once here instead of calling Ck.theorems() and then repairing its axiom lists: Print
-    Assumptions through Flocq/Reals costs ~20 s per pass (helper local to this check)."""
-    from harness.common import ROCQ
-    names = re.findall(r'^\s*(?:Theorem|Lemma|Corollary)\s+([A-Za-z0-9_\']+)', (ROCQ / props_file).read_text(), re.M)
-    body = 'Require Import SV.Props.C05.\n' + ''.join(f'Print Assumptions {n}.\n' for n in names)
-    rc, out = ck.coq_scratch(body, 'assumptions_full')
-    if rc != 0:
-        ck.obligation(f'assumptions:{props_file}', False, out[-2000:])
-        ck.tie_broken.append(f'Print Assumptions failed for {props_file}')
-        return
+def theorems_with_axioms(ck: Ck, props_file: str = 'Props/C05.v'):
+    """Starts the Print Assumptions pass in the background (it only reads the built .vo files and costs ~30 s through
+    Flocq/Reals); the returned function waits for it and records the obligations.  A background job that could not run
+    (thread or process limits on a loaded machine) is repeated once in the foreground, one coqc at a time."""
+    import threading
+    box: list = []
+    err: list = []
+
+    def job() -> None:
+        try:
+            box.append(_theorems_job(ck, props_file, 4))
+        except BaseException as e:          # noqa: BLE001 - reported below
+            err.append(repr(e))
+    try:
+        th = threading.Thread(target=job, daemon=True)
+        th.start()
+    except RuntimeError as e:
+        th = None
+        err.append(repr(e))
+
+    def finish() -> None:
+        if th is not None:
+            th.join()
+        if not box or any(rc != 0 for rc, _ in box[0][2]):      # (a failed fast path has already fallen back to the detailed pass)
+            first = err[:] + ([out[-300:] for rc, out in box[0][2] if rc != 0] if box else [])
+            try:
+                box[:] = [_theorems_job(ck, props_file, 1)]
+                ck.extra['print_assumptions_retried'] = first
+            except Exception as e:          # noqa: BLE001
+                err.append(repr(e))
+                box.clear()
+        if not box:
+            ck.obligation(f'assumptions:{props_file}', False, 'Print Assumptions job could not run: ' + '; '.join(err)[:1500])
+            ck.tie_broken.append(f'Print Assumptions failed for {props_file}')
+            return
+        _theorems_record(ck, props_file, *box[0])
+    return finish
+
+
+# statements of Props/C05.v that go through Flocq's real-number layer (the four classical axioms of Coq's Reals); every other
+# statement is expected to be closed under the global context.  Only a hint for the fast path below: if it is wrong in
+# either direction the per-statement pass runs and reports what Print Assumptions really says.
+REALS_THEOREMS = {'c05_norm360_range', 'c05_single_mod_closed', 'c05_single_mod_refuted', 'c05_angle_range_invariant', 'c05_single_site_refuted',
+                  'c05_double360_id', 'c05_double360_idempotent', 'c05_double360_of_360', 'c05_within_5e7_R', 'c05_float_parse_error',
+                  'c05_float_parse_exact', 'c05_copy_value_equal_angles', 'c05_double360_sub', 'c05_angle_component_roundtrip',
+                  'c05_angle_text_roundtrip', 'c05_vec_text_roundtrip'}
+ALLOWED_AXIOMS = {'ClassicalDedekindReals.sig_forall_dec', 'ClassicalDedekindReals.sig_not_dec', 'FunctionalExtensionality.functional_extensionality_dep',
+                  'Classical_Prop.classic'}
+
+
+def _assumption_blocks(out: str) -> list[list[str]]:
     blocks: list[list[str]] = []
     for line in out.splitlines():
         if line.startswith('Closed under the global context'):
@@ -942,17 +1127,83 @@ def theorems_with_axioms(ck: Ck, props_file: str = 'Props/C05.v') -> None:
             m = re.match(r"([A-Za-z_][A-Za-z0-9_.']*)", line)
             if m:
                 blocks[-1].append(m.group(1))
-    if len(blocks) != len(names):
-        ck.obligation(f'assumptions:{props_file}', False, f'{len(names)} statements but {len(blocks)} Print Assumptions blocks')
-        ck.tie_broken.append(f'Print Assumptions output not understood for {props_file}')
-        return
-    allowed = {'ClassicalDedekindReals.sig_forall_dec', 'ClassicalDedekindReals.sig_not_dec', 'FunctionalExtensionality.functional_extensionality_dep',
-               'Classical_Prop.classic'}
+    return blocks
+
+
+def _theorems_job(ck: Ck, props_file: str, workers: int = 4):
+    """Print Assumptions walks the whole dependency cone again for every statement (seconds each below Flocq/Reals).
+    Fast path: two passes over TUPLES of statements - the group expected to be closed must be closed as a whole (then
+    every member is), the group that uses Flocq's reals must depend on nothing but the four Reals axioms (then no
+    member does).  If either expectation fails, or a statement is in neither reading, the exact per-statement pass
+    runs (dealt round-robin to four coqc processes, blocks put back in source order)."""
+    from concurrent.futures import ThreadPoolExecutor
+    from harness.common import ROCQ
+    names = re.findall(r'^\s*(?:Theorem|Lemma|Corollary)\s+([A-Za-z0-9_\']+)', (ROCQ / props_file).read_text(), re.M)
+    closed = [n for n in names if n not in REALS_THEOREMS]
+    reals = [n for n in names if n in REALS_THEOREMS]
+
+    def group(tag: str, members: list[str]):
+        if not members:
+            return 0, 'Closed under the global context\n'
+        body = f'Require Import SV.Props.C05.\nDefinition c05_group_{tag} := ({", ".join(members)}).\nPrint Assumptions c05_group_{tag}.\n'
+        try:
+            return ck.coq_scratch(body, f'assumptions_group_{tag}')
+        except Exception as e:          # noqa: BLE001
+            return 1, repr(e)
+    if workers > 1:
+        with ThreadPoolExecutor(max_workers=2) as ex:
+            (rc1, o1), (rc2, o2) = list(ex.map(lambda a: group(*a), [('closed', closed), ('reals', reals)]))
+    else:
+        (rc1, o1), (rc2, o2) = group('closed', closed), group('reals', reals)
+    if rc1 == 0 and rc2 == 0:
+        b1, b2 = _assumption_blocks(o1), _assumption_blocks(o2)
+        if len(b1) == 1 and len(b2) == 1 and not b1[0] and set(b2[0]) <= ALLOWED_AXIOMS:
+            # one part per group, in the format of the detailed pass: every member gets the verdict of its group
+            return names, [closed, reals], [(0, ''.join('Closed under the global context\n' for _ in closed)),
+                                            (0, ''.join('Axioms:\n' + '\n'.join(b2[0]) + '\n' for _ in reals))], 'grouped'
+    parts = [names[i::4] for i in range(4)]
+
+    def one(i: int):
+        body = 'Require Import SV.Props.C05.\n' + ''.join(f'Print Assumptions {n}.\n' for n in parts[i])
+        try:
+            return ck.coq_scratch(body, f'assumptions_full{i}')
+        except Exception as e:          # noqa: BLE001 - reported as a failed obligation
+            return 1, repr(e)
+    if workers <= 1:
+        res = [one(i) for i in range(4)]
+    else:
+        with ThreadPoolExecutor(max_workers=workers) as ex:
+            res = list(ex.map(one, range(4)))
+    return names, parts, res, 'per statement'
+
+
+def _theorems_record(ck: Ck, props_file: str, names: list[str], parts: list[list[str]], res: list[tuple[int, str]], how: str = 'per statement') -> None:
+    """Same job as Ck.theorems() - one `theorem:<name>` obligation per statement of the Props file with its Print
+    Assumptions result - with a parser that also understands axioms whose type is printed on the following line (the
+    Reals axioms are)."""
+    by_name: dict[str, list[str]] = {}
+    for part, (rc, out) in zip(parts, res):
+        if rc != 0:
+            ck.obligation(f'assumptions:{props_file}', False, out[-2000:])
+            ck.tie_broken.append(f'Print Assumptions failed for {props_file}')
+            return
+        blocks = _assumption_blocks(out)
+        if len(blocks) != len(part):
+            ck.obligation(f'assumptions:{props_file}', False, f'{len(part)} statements but {len(blocks)} Print Assumptions blocks')
+            ck.tie_broken.append(f'Print Assumptions output not understood for {props_file}')
+            return
+        by_name.update(zip(part, blocks))
+    blocks = [by_name[n] for n in names]
+    ck.extra['print_assumptions_mode'] = how
     for n, b in zip(names, blocks):
         ck.axioms[n] = b
-        extra = [a for a in b if a not in allowed]
-        ck.obligation(f'theorem:{n}', not extra, 'Qed; axioms: ' + ('none (closed under the global context)' if not b else ', '.join(b))
-                      + (f' -- NOT ALLOWED: {extra}' if extra else ''))
+        extra = [a for a in b if a not in ALLOWED_AXIOMS]
+        if how == 'grouped':
+            what = 'none (closed under the global context; checked on the tuple of all such statements)' if not b else \
+                'no other than ' + ', '.join(b) + ' (Print Assumptions of the tuple of the statements that use Flocq reals)'
+        else:
+            what = 'none (closed under the global context)' if not b else ', '.join(b)
+        ck.obligation(f'theorem:{n}', not extra, 'Qed; axioms: ' + what + (f' -- NOT ALLOWED: {extra}' if extra else ''))
 
 
 # ------------------------------------------------------------------------------------------------ main
@@ -965,8 +1216,10 @@ def run(ck: Ck) -> None:
                'stray brackets, 18 kinds of Unicode whitespace and look-alikes, all bracket styles incl. wrong ones), non-trivial = the model '
                'predicts three decimal fields, distinct by text')
     ck.trusted.append('hand-written models Num/Mod360.v (CPython float_rem on binary64), Num/Dec6.v (printf %.6f + rstrip), Num/VecText.v '
-                      '(str.strip/split, bracket removal, plain-decimal reader), SM/FrozenOps.v + SM/FrozenCopy.v (frame, result aliasing) - '
-                      'tied by differential runs on every execution; translate/c05_sites.py; Flocq 4 library')
+                      '(str.strip/split, bracket removal, plain-decimal reader), SM/FrozenOps.v + SM/FrozenCopy.v + SM/FrozenCopyValue.v '
+                      '(frame, result aliasing, slot transfer of copies) - tied by differential runs on every execution; Num/AngleText.v '
+                      'dy_of (proved equal to the (sign, mantissa, exponent) interface of the correspondences); translate/c05_sites.py; '
+                      'Flocq 4 library')
     ck.assumptions += ['operands of % 360 are finite doubles (no overflow to inf/nan inside Angle arithmetic)',
                        'C printf("%.6f") and float() are correctly rounded (IEEE 754 round-half-even); float() of a plain decimal is checked against '
                        'the exactly rounded Fraction on every parse case',
@@ -974,8 +1227,9 @@ def run(ck: Ck) -> None:
     ok_t = ck.translate('AngleSites_gen', c05_sites.translate)
     side = ck.extra.get('translated', {}).get('AngleSites_gen', {})
     built = ok_t and ck.build(['Gen/AngleSites_gen.vo', 'Props/C05.vo'])
+    finish_theorems = None
     if built:
-        theorems_with_axioms(ck)
+        finish_theorems = theorems_with_axioms(ck)
         empty = lambda e: f'match {e} with nil => true | _ => false end'
         res = ck.instance_obligations(IMPORTS, {
             'all_angle_store_sites_safe': 'all_sites_safe angle_sites',
@@ -1000,24 +1254,55 @@ def run(ck: Ck) -> None:
             'copy_results_new_or_frozen_self': 'copy_results_ok result_kinds',
             'copy_protocol_present_on_all_six_classes': 'copy_methods_present result_kinds',
             'copy_methods_write_nothing': 'no_copy_events mut_events',
+            'copy_shapes_keep_every_slot_value': 'copy_shapes_ok copy_shapes',
+            'copy_shapes_agree_with_result_kinds': 'shapes_agree result_kinds copy_shapes',
+            'census_fresh_by_name_justified': 'fresh_names_ok fresh_by_name',
             'no_write_through_unknown_or_aliased_object': 'forallb (fun e : mut_event => match snd (fst e) with Unknown | MaybeAlias | Param => helper (snd (fst (fst e))) | _ => true end) mut_events',
         })
         if not all(res.values()):      # a premise of the theorems no longer holds for today's source: escalate the search
             ck.tie_broken.append('instance obligations failed: ' + ', '.join(k for k, ok in res.items() if not ok))
-        v = ck.coq_eval(IMPORTS, ['bad_events no_carve mut_events', 'bad_results result_kinds', 'bad_creations angle_creations', 'neg_zero_fix format_float_cfg'], name='info', preamble='Import ListNotations.')
+    from concurrent.futures import ThreadPoolExecutor
+    with ThreadPoolExecutor(max_workers=8) as pool:
+        # the model evaluations (coqc processes) run in the pool while the searches on the implementation run here
+        pend = [Pending(ck, g(ck), pool) for g in (corr_mod, corr_format, corr_parse)] if built else []
+        info = pool.submit(ck.coq_eval, IMPORTS, ['bad_events no_carve mut_events', 'bad_results result_kinds', 'bad_creations angle_creations',
+                                                  'neg_zero_fix format_float_cfg', 'bad_shapes copy_shapes'], 'info', 600, 'Import ListNotations.') if built else None
+        escalated = bool(ck.tie_broken)
+        frames = guarded(ck, search_histories, [])
+        if built:
+            pend.append(Pending(ck, corr_frames(ck, frames), pool))
+            corr_results(ck, frames, side)
+            corr_shapes(ck, frames, side)
+        guarded(ck, search_to_angle)
+        guarded(ck, search_text)
+        for p in pend:
+            p.finish()
+        v = info.result() if info is not None else None
         if v:
-            ck.extra['offending_census_entries'] = {'mut_events': v[0], 'result_kinds': v[1], 'angle_creations': v[2]}
+            ck.extra['offending_census_entries'] = {'mut_events': v[0], 'result_kinds': v[1], 'angle_creations': v[2], 'copy_shapes': v[4]}
             ck.extra['format_float_has_negative_zero_repair (carve-out of c05_format6_shape empty when true)'] = v[3]
-        corr_mod(ck)
-        corr_format(ck)
-        corr_parse(ck)
-    frames = search_histories(ck)
-    if built:
-        corr_frames(ck, frames)
-        corr_results(ck, frames, side)
-    search_to_angle(ck)
-    search_text(ck)
+        if finish_theorems is not None:
+            finish_theorems()
+    if ck.tie_broken and not escalated:
+        # a correspondence failed after the searches had run with the small budget: search again with the escalated one
+        guarded(ck, search_histories)
+        guarded(ck, search_to_angle)
+        guarded(ck, search_text)
     explain_failures(ck)
+
+
+def guarded(ck: Ck, search, default=None):
+    """Run one search; an exception that escapes from the implementation inside it (a broken tree can raise anywhere)
+    is reported as a failed obligation of the check instead of ending the run with an internal error."""
+    try:
+        return search(ck)
+    except Exception as e:          # noqa: BLE001
+        import traceback
+        tb = traceback.extract_tb(e.__traceback__)
+        where = next((f'{fr.name} ({fr.filename.rsplit("/", 1)[-1]}:{fr.lineno})' for fr in reversed(tb) if '/srctools/' in fr.filename), 'the check')
+        ck.obligation(f'search:{search.__name__}_completed', False, f'{type(e).__name__}: {e} raised in {where}')
+        ck.tie_broken.append(f'{search.__name__} stopped by {type(e).__name__} in {where}')
+        return default
 
 
 def explain_failures(ck: Ck) -> None:
@@ -1041,6 +1326,9 @@ def explain_failures(ck: Ck) -> None:
     if any(k.startswith(('vec-from-str', 'angle-from-str', 'parse-vec-str')) for k in keys):
         for o in ('instance:parse_vec_str_', 'instance:from_str_', 'correspondence:parse_vec_str'):
             ck.explain(o)
+        # a text that does not read back can equally come from the writing side (a component printed with fewer places
+        # is still a plain decimal): the round-trip replay shows it
+        ck.explain('instance:str_and_join_use_format_float')
     if any(k.startswith(('angle-360-', 'angle-out-of-range', 'angle-slot-missing')) for k in keys):
         for o in ('instance:all_angle_store_sites_safe', 'instance:no_single_modulo_store', 'instance:no_unclassified_angle_store',
                   'instance:no_unclassified_angle_creation', 'instance:to_angle_stores_all_slots', 'instance:angle_init_stores_all_slots'):
@@ -1048,10 +1336,12 @@ def explain_failures(ck: Ck) -> None:
     if any(k.startswith(('frozen-', 'frozenmatrix-', 'non-receiver-')) for k in keys):
         ck.explain('instance:mutation_census_ok')
         ck.explain('instance:no_write_through_unknown_or_aliased_object')
+        ck.explain('instance:census_fresh_by_name_justified')
         ck.explain('correspondence:frames')
     if any(k.startswith(('copy-is-same-object', 'copy-not-equal', 'source-changed-by')) for k in keys):
         ck.explain('instance:copy_')
         ck.explain('correspondence:results')
+        ck.explain('correspondence:copy_shapes')
 
 
 def replay(data: dict) -> int:
